@@ -1,6 +1,7 @@
 import Pko.Drv.PhaseCommon
 import Pko.Model.ObjectSet
 import Pko.Model.Remote
+import Pko.Model.RemoteNs
 import Pko.Model.Slices
 import Pko.Model.Converge
 /-! Shared part of the controller-level ("sys") drivers: scenario decoding, running the
@@ -116,6 +117,8 @@ def initSys (s : Scn) : Sys :=
   -- ObjectSlices are fixtures: they consume no uid / resourceVersion numbers
   let slices := sets.flatMap fun js => (js.phases.getD []).flatMap fun ph =>
     (ph.slices.getD []).map fun sl => (sl.name, (sl.objects.getD []).map toPObj)
+  -- the Namespace the harness creates (a fixture as well); only the remote-phase teardown reads it
+  let store := store.set (Pko.Model.RemoteNs.nsKey "ns1") (some Pko.Model.RemoteNs.nsObj)
   { w := { store := store, writes := 0, env := [], events := [] }
     sets := fun nm => osets.find? (·.name = nm)
     setEvents := [], freed := [], setWrites := 0, setEnv := [], slices := slices }
@@ -163,6 +166,7 @@ def phaseEventStr (kind : String) : PhaseEvent → String
   | .delete n r => s!"X {kind}/{n} {resOr r}"
   | .finalizerPatch n add r => s!"F {n} {if add then "+" else "-"} {resOr r}"
   | .statusUpdate n r conds co => s!"S {n} {resOr r} rev=0 conds=[{condsStr conds}] co=[{crefsStr co}]"
+  | .update n r => s!"U {kind}/{n} {resOr r}"
 
 def ophaseStr (p : OPhase) : String :=
   s!"{p.name}\{g={p.gen},d={b01 p.deleting},f={if p.finCached then "c" else ""}{if p.finOrphan then "o" else ""},paused={b01 p.paused},rev={p.revision} conds=[{condsStr p.conds}] co=[{crefsStr p.controllerOf}]}"
@@ -195,8 +199,11 @@ def stepModel (scn : Scn) (cfg : Cfg) (st : JStep) (s : Sys) : Sys × String :=
     let s0 : Sys := { s with w := { s.w with writes := 0, env := (st.env.getD []).map toEnv, events := [], phaseEvents := [], applied := [] },
                              setEvents := [], setWrites := 0, setEnv := (st.setEnv.getD []).map toSetEnv }
     let refs := sliceRefs scn st.set
-    let (s1, r) := if refs.all (·.isEmpty) then reconcile cfg Pko.Model.Remote.remotes st.set s0
-      else Pko.Model.Slices.reconcileSliced cfg Pko.Model.Remote.remotes refs st.set s0
+    -- a namespace that is there and not in deletion: the remote-phase teardown never takes the
+    -- namespace branch (`Pko.Props.C04.remoteTeardownNs_live`) — such passes run `Remote.remotes` itself
+    let rm := if Pko.Model.RemoteNs.nsLive s0.w.store (nsOf scn) then Pko.Model.Remote.remotes else Pko.Model.RemoteNs.remotesNs
+    let (s1, r) := if refs.all (·.isEmpty) then reconcile cfg rm st.set s0
+      else Pko.Model.Slices.reconcileSliced cfg rm refs st.set s0
     (s1, stepOut r s1)
   | "phase" =>
     let s0 : Sys := { s with w := { s.w with writes := 0, env := (st.env.getD []).map toEnv, events := [], phaseEvents := [], applied := [] },
@@ -209,11 +216,21 @@ def stepModel (scn : Scn) (cfg : Cfg) (st : JStep) (s : Sys) : Sys × String :=
   | "touch" => (s.applySetEnv (.touch st.set), "-")
   | "delete" => (s.applySetEnv (.delete st.set st.orphan), "-")
   | "editPayload" => (s.applySetEnv (.editPayload st.set st.phase st.obj st.value), "-")
-  | "restart" => (s, "-")
+  -- the operator process is replaced: what it held in memory — the dynamic cache's registrations — is gone
+  | "restart" => ({ s with w := s.w.restart }, "-")
   | "delSlice" => ({ s with slices := s.slices.filter (·.1 != st.set) }, "-")   -- a third party deletes an ObjectSlice
   -- (S1B) third-party operations on a delegated phase's API object
   | "delPhase" => ({ s with w := Pko.Model.Remote.deletePhaseObject s.w st.set st.orphan (st.value == "force") (gcKeys scn cfg) }, "-")
   | "gcPhase" => ({ s with w := Pko.Model.Remote.gcPhaseObject s.w st.set (gcKeys scn cfg) }, "-")
+  -- the scenario's Namespace as the controllers' client sees it from now on: in deletion
+  -- ("terminating"), not there ("gone": NotFound), or there again ("live")
+  | "namespace" =>
+    let k := Pko.Model.RemoteNs.nsKey "ns1"
+    let o : Option Obj := match st.value with
+      | "gone" => none
+      | "terminating" => some { Pko.Model.RemoteNs.nsObj with deleting := true, finalizer := true }
+      | _ => some Pko.Model.RemoteNs.nsObj
+    ({ s with w := { s.w with store := s.w.store.set k o } }, "-")
   | _ => (s, "BAD-STEP")
 where
   stepOut (r : Res) (s1 : Sys) : String :=
